@@ -45,6 +45,14 @@ int main() {
   bool same_image = std::memcmp(image.data(), &p, sizeof(p)) == 0;
   // history independence: the same calls again, sequentially, after all of the above
   for (size_t i = 0; i < jobs.size(); ++i) if (observe(jobs[i].first, jobs[i].second) != ref[i]) ++bad;
+  // history through the CALLER's long-lived stream: what a call appends to a stream that earlier calls (failed ones, lexical errors at
+  // bytes >= 0x80, verbose ones) have written to is exactly what it writes to a fresh stream - no formatting state is left behind
+  { std::stringstream shared; std::vector<std::string> seq = { "1;2;3;4;5;6;7;8;9;10;11+;", "1;\xa0", "1;2;3;4;5;6;7;8;9;10;11+;", "1+\xe9\x80;", "(1+2)*3;4;5;6;7;8;9;10;11;12;13", "1;2;3;4;5;6;7;8;9;10;11;12;13;14;15;16;17;18;19;20;21+;" };
+    for (int mode = 0; mode < 2; ++mode) for (auto& in : seq) {
+      std::stringstream fresh; ctx c1, c2; auto before = shared.str().size();
+      auto opt = mode ? parse_options{}.set_verbose() : parse_options{};
+      auto a = p.context_parse(c1, opt, string_buffer(std::string(in)), shared); auto b = p.context_parse(c2, opt, string_buffer(std::string(in)), fresh);
+      if (a != b || shared.str().substr(before) != fresh.str()) { ++bad; std::cout << "FAIL history through a shared stream: input '" << in << "' (verbose " << mode << ") wrote '" << shared.str().substr(before).substr(0, 60) << "' but on a fresh stream '" << fresh.str().substr(0, 60) << "'\n"; } } }
   std::cout << "calls=" << 16 * 6 * jobs.size() << " mismatches=" << bad << " parser_bytes_unchanged=" << same_image << "\n";
   return (bad || !same_image) ? 1 : 0;
 }
